@@ -151,6 +151,7 @@ impl SwiftField for Field25P {
                 {
                     // Reparse account without BIC
                     let account_part = &input[..input.len() - 11];
+                    parse_swift_chars(account_part, "Field 25P account")?;
                     return Ok(Field25P {
                         account: parse_max_length(account_part, 35, "Field 25P account")?,
                         bic,
@@ -163,6 +164,7 @@ impl SwiftField for Field25P {
                 {
                     // Reparse account without BIC
                     let account_part = &input[..input.len() - 8];
+                    parse_swift_chars(account_part, "Field 25P account")?;
                     return Ok(Field25P {
                         account: parse_max_length(account_part, 35, "Field 25P account")?,
                         bic,
